@@ -33,6 +33,7 @@ RULE = (
     "export into it, or while another directory's files are cached; distinct = different (abstract disk state, cache "
     "state, export/import route, path style) tuples at such imports"
 )
+STATE_MEASURE = "abstract state per export/import = (operation, disk-model state or history tags of the directory, route, path style, set of directories whose ROOT file is in the cache)"
 ASSUMPTIONS = [
     "uproot is the ROOT codec (ROOT itself is absent)",
     "a relative export is re-imported with rootdir/basedir = the working directory at export time (or with a mount after a move), as the XML stores the paths it was given",
@@ -84,7 +85,8 @@ def _exportable_ws(rng, tag):
 
 
 def gen(rng: random.Random, k: int, tier: str) -> dict:
-    cfg = {"fault_rate": rng.choice([0.0, 0.0, 0.15, 0.3]), "len": rng.randint(5, 22),
+    deep = tier == "thorough" and k % 3 == 2   # thorough: every third segment is a three times longer history
+    cfg = {"fault_rate": rng.choice([0.0, 0.0, 0.15, 0.3]), "len": rng.randint(5, 22) * (3 if deep else 1),
            "restart_w": rng.choice([0.0, 0.3, 1.0]), "cli_w": rng.choice([0.0, 0.3, 0.6])}
     ops = []
     nws = rng.randint(1, 3)
